@@ -30,6 +30,10 @@ PROPS["C17"] = {
     "gen": ["Cmplx", "Dynamics"],
     "lean_props": "DspVerif.Props.C17",
     "harness": [{"src": "c17.cpp", "cfg": "rel",
+                 "tol": {"angle": (4e-15, 0.0), "v.angle": (4e-15, 0.0), "cpow": (1e-13, 0.0), "cpowi": (1e-13, 0.0), "v.cpowi": (1e-13, 0.0), "ctanh": (1e-13, 0.0)}},
+                # the lifetime / aliasing / value-category section and the large-frame section once more under ASan + UBSan
+                # (dangling results of temporaries, reads of moved-from operands, overlapping copies, index overflow in block paths)
+                {"src": "c17.cpp", "cfg": "asan", "env": {"C17_ONLY": "lifetime,large"},
                  "tol": {"angle": (4e-15, 0.0), "v.angle": (4e-15, 0.0), "cpow": (1e-13, 0.0), "cpowi": (1e-13, 0.0), "v.cpowi": (1e-13, 0.0), "ctanh": (1e-13, 0.0)}}],
     "rule": "scalar functions: 39 special reals (0, -0, +-1, +-0.5, half-integers, 1e+-100, pi, ...) + 5000 (thorough 75000) random reals with log-uniform magnitude 1e-100..1e100; "
             "144 special complex points (all pairs of 0, -0, +-1, +-2, +-0.5, +-1e-100, +-1e100: zeros, signed zeros, +-1, +-i, both axes) + 4 axis points per random magnitude + "
@@ -38,7 +42,24 @@ PROPS["C17"] = {
             "(full range, band of <= 2 decades with random signs, one-signed band, special points, small integers with ties) x {real, complex}; "
             "upsample/downsample: every length <= 12 x every factor -1..n+2 x every phase -1..factor (invalid ones must throw) + random long arrays; repelem/flip/zeropad/delayseq: "
             "lengths 0..16 exhaustive parameters + random to 1000; integer arange: every start/stop/step in [-12, 12] (step 0 must throw) + random large; fractional arange: dyadic and decimal steps, "
-            "counts 0..1000; linspace: n = 0..100 x 10 (60) endpoint pairs; all inverse pairs; distinct = distinct protocol lines / oracle evaluations; non-trivial = all",
+            "counts 0..1000; linspace: n = 0..100 x 10 (60) endpoint pairs; all inverse pairs; distinct = distinct protocol lines / oracle evaluations; non-trivial = all. "
+            "Second round (defects invisible to any sweep with independently drawn operands): "
+            "(i) ALIASING / LIFETIME: every array function (about 75 overload x parameter combinations per element type) on lengths 1, 2, 3, 4, 7, 8, 9, 16, 33, 64, 257, 1000 "
+            "(thorough: + 5..48, 100, 255..257, 511..513, 999, 4096, 65537) x content classes, with the operand as named object, temporary, moved copy, slice of itself, slice of a temporary, "
+            "nested expression, result bound to const&, range-for over the temporary result, x = f(x), x = f(move(x)), x = f(slice of x), x.slice = f(x); every two-array function "
+            "(dot real and complex, complex(re, im), power(vec, vec), power(cvec, vec)) additionally with the SAME OBJECT for both parameters (direct, through a reference, object + slice / temporary copy of itself, "
+            "overlapping slices of one object), result assigned back to either operand / into a slice of it, and after a rejected (size-mismatch) call; the same object(s) again after an in-place change of their contents; max/min(a, a). Oracle: BIT-identical to the same call "
+            "on equal but distinct deep copies, operands unmodified (compared with a pristine copy never handed to the library), result storage distinct from the operands'; dot(x, x), power(x, x), complex(x, x) also against the long-double definition in EVERY reduction case "
+            "(all lengths x classes) and through CORR. The section runs a second time under ASan + UBSan. "
+            "(ii) SCALE CLASSES / BOUNDARIES: both ulp-neighbours of every half-integer to 6.5, powers of two 2^+-{1,2,3,10,31,32,52,53,63,64,100,200,300,332}, neighbours of 2^31, 2^32, 2^51, 2^52, 2^53, 2^63; "
+            "46 extreme magnitudes (DBL_MAX, DBL_MAX/2, 2^1023, 1e300 ... 1e-300, DBL_MIN, denormals to 5e-324) for every function whose exact result is finite and that forms no square "
+            "(deg2rad/rad2deg in 1e-300..1e305, abs2(real) in 1.5e-154..1.3e154, complex abs/abs2 with the larger part in 1.5e-154..9e153); exp at 700, 709, log(DBL_MAX), log(DBL_MIN), -745.13; db2pow/db2mag to +-3230/+-6460 dB; "
+            "complex arguments with ONE special component (0, -0, +-1, 1 +- ulp, -1 +- ulp, +-0.5, +-2, pi, -pi/2, 5e-324, DBL_MIN, 1e-300) and a random other one, both orders, two magnitude ranges, also as power bases; "
+            "exponents -0, +-{5e-324, DBL_MIN, 1e-300, 1e-100, 1e-17, 1e-8}, both ulp-neighbours of -2, -1, 1, 2, 3 and of 0.5, inner neighbours of +-8; extreme real power bases whenever the exact power lies in 1e-290..1e290; "
+            "reduction classes: all-negative band, extreme absolute scale 1e-305 ... DBL_MAX/(2n) (linear reductions: sum, mean, cumsum, dot with unit-scale second operand, real norm-1/min/max/arg*/peak2peak), "
+            "band with ONE special element (1e3 x max, -1e3 x max, +0, -0, 1e-3 x min) planted first / last / centre. "
+            "(iii) LARGE FRAMES: every array overload, power overload, reduction, shape function and generator on single calls of 65536 and 131073 elements after a 100-element call "
+            "(thorough: 65535, 65536, 65537, 98304, 131072, 131073, 147456 = 3*49152, 196608, 262145), full long-double / brute-force oracle on every element",
     "trusted_base": TB_COMMON + [
         "long double (x87 80-bit) libm functions and brute-force loops in harness/c17.cpp are trusted as the reference definitions; the budget per function is the table at the top of that file "
         "(8 eps*scale; conditioning terms for power(cmplx, n), db2pow/db2mag, norm p >= 3; the a-priori bound (n-1)u of recursive summation for reductions)",
@@ -50,5 +71,7 @@ PROPS["C17"] = {
         "dot(arr_cmplx, arr_cmplx) is the bilinear product sum x_i*y_i (no conjugation), as documented ('array dot')",
         "complex min/max/argmin/argmax/peak2peak order by |z|^2 computed in double: near-ties within 4 eps may resolve either way (oracle accepts any element within 4 eps of the extreme)",
         "delayseq is instantiable for real arrays only (the complex instantiation does not compile: zeros(N) is arr_real)",
+        "outside the quantifier 'no intermediate overflow of squares' (counted as statistics, not evaluated): abs2(real) beyond 1.5e-154..1.3e154, complex abs/abs2 with the larger part beyond 1.5e-154..9e153, "
+        "rms/stddev/norm p >= 2/complex norm/complex min-max at the extreme absolute scales; deg2rad/rad2deg below 1e-300 (x/180, x/pi denormal) or above 1e305 (x/pi*180 overflows)",
     ],
 }
